@@ -13,7 +13,7 @@ LEVEL_OF_INDICATOR = {1: 'L', 0: 'M', 3: 'Q', 2: 'H'}
 
 # ------------------------------------------------------------------ design run + vector export (spec -> code)
 def design_run(rep, cfg, what, workers=None):
-    out, st = common.run_tlc('MC_Decide', cfg=cfg, workers=workers or common.NCPU, timeout=1500, xmx='12g')
+    out, st = common.run_tlc('MC_Decide', cfg=cfg, workers=workers or common.NCPU, timeout=1500, xmx='12g', coverage=True)
     rep.add_design('MC_Decide', cfg, out, st, what)
     return common.parse_vectors(out)
 
@@ -288,10 +288,23 @@ def run_c05(rep, tier):
         if e:
             kw['error'] = e
         calls.append(call('make', parts if k > 1 else parts[0], **kw))
+    # ECI with alias spellings of the encodings, close to the level boundaries of version 1 and 2
+    for enc in ('latin1', 'L1', 'ISO-8859-1', 'utf-8', 'UTF8', 'iso-8859-15'):
+        for n in range(5, 18):
+            calls.append(call('make', 'ä' * n if enc not in ('utf-8', 'UTF8') else 'ä' * (n // 2), encoding=enc, eci=True, micro=False))
     obs = symobs.observe_many(calls, props=['C05'])
+    # every symbol of a sequence is boosted on its own
+    for c in (call('make_sequence', 'ABCDEFGHIJKLMNO', symbol_count=2), call('make_sequence', gen.alnum(r, 31), symbol_count=2),
+              call('make_sequence', gen.digits(r, 77), symbol_count=3), call('make_sequence', gen.latin1(r, 41), version=1, error='L'),
+              call('make_sequence', gen.alnum(r, 45), symbol_count=4, error='M'), call('make_sequence', gen.latin1(r, 29), symbol_count=3, boost_error=False)):
+        so = symobs.observe_sequence_symbols(c, props=['C05'])
+        for o in so:
+            o['exp']['parts'] = o['exp']['parts'][:1]
+        obs += so
     for o in obs:
-        o['exp']['req'] = norm_req(o['_call'])
-    rep.evaluations += len(calls)
+        o['exp']['req'] = norm_req(o['_call']) if o['_call']['api'] != 'make_sequence' else dict(
+            norm_req(dict(o['_call'], kw={k: x for k, x in o['_call']['kw'].items() if k not in ('symbol_count', 'version')})), version=99, micro='no')
+    rep.evaluations += len(calls) + 6
 
     def key(o, v):
         f = v['facts']
@@ -328,6 +341,12 @@ def c07_calls(tier, r):
         calls.append(call('make', gen.sjis_text(r, n)))
         calls.append(call('make', gen.utf8_text(r, n)))
         calls.append(call('make', int(gen.digits(r, n)) + 10 ** n))
+    # kanji content with the encoding given in various spellings (no requested mode): still the most compact mode
+    for enc in ('shift_jis', 'Shift_JIS', 'sjis', 'shift-jis', 'SJIS', 'cp932'):
+        calls.append(call('make', gen.kanji(r, 3), encoding=enc))
+        calls.append(call('make', gen.kanji(r, 2).encode('shift_jis'), encoding=enc))
+        calls.append(call('make', '12345', encoding=enc))
+        calls.append(call('make', 'AB CD', encoding=enc, micro=False))
     # every requested mode x {representable, not representable} x version
     contents = {'num': '0123456', 'alnum': 'AB CD', 'kanji': gen.kanji(r, 3), 'l1': 'abcä', 'x8': 'őx', 'hanzi': gen.hanzi(r, 3),
                 'digits_bytes': b'123', 'kanji_bytes': gen.kanji(r, 2).encode('shift_jis'), 'bad_trail': b'\x82\x00\x82\x3f',
